@@ -40,7 +40,9 @@ def generate():
                       dict(name="monitors", path="lsfverif/mon", serves_properties=[c["property_id"] for c in checks if c["engine"] == "simworld"],
                            kind_free_text="online monitors on broker operations, notifications, records and histories")],
              checks=checks, not_applicable=na,
-             notes="Runtime monitoring of the real code under generated workloads, schedules, faults and crashes; see DESIGN.md. Exit codes: 0 held, 1 VIOLATION, 2 INCONCLUSIVE.")
+             notes="Runtime monitoring of the real code under generated workloads, schedules, faults and crashes; see DESIGN.md. Exit codes: 0 held, 1 VIOLATION, 2 INCONCLUSIVE. Known findings: known_findings.json (listed by mechanism, per property; each check prints one KNOWN-FINDING line per "
+                   "finding listed for its property; 'fixed' and 'withdrawn' entries suppress nothing). Seeded changes used to test the checks: seeded/<id>/<change>/ and "
+                   "seeded/matrix.json (DESIGN.md sections 7 and 10.6).")
     with open(os.path.join(ROOT, "MANIFEST.json"), "w") as f:
         json.dump(m, f, indent=1)
     return m
